@@ -1171,6 +1171,16 @@ class Compiler:
         local_vars_set = set(self.locals)
         if isinstance(node.body, BlockStatement):
             self._collect_var_decls(node.body, local_vars_set)
+        # The var declarations of the body are locals from the start, as in an
+        # ordinary function: code above a declaration (and a closure created
+        # above it) refers to the local, not to a global of that name. Sorted:
+        # slot numbers must not depend on the iteration order of a set
+        for var in sorted(local_vars_set):
+            if var not in self.locals:
+                self.locals.append(var)
+
+        # Nested functions look their outer variables up in this list
+        self._outer_locals.append(self.locals[:])
 
         # Find variables captured by inner functions
         captured = self._find_captured_vars(node.body, local_vars_set)
@@ -1179,6 +1189,8 @@ class Compiler:
         # Find all free variables needed
         required_free = self._find_required_free_vars(node.body, local_vars_set)
         self._free_vars = sorted(required_free)
+
+        self._outer_locals.pop()
 
         if node.expression:
             # Expression body: compile expression and return it
